@@ -41,6 +41,14 @@ Proof. exact (dpl_two_workers_equals_union mean B k S0 S1 z). Qed.
 Example C18_nonvacuous : dist_flat ddp_noised ddp_reduce true 6 1 [3; 0; 2] 1 = 1.
 Proof. rewrite C18_flat_equals_union by (try discriminate; lra). unfold single, opt_scale, opt_denominator. cbn. unfold nsum. cbn. lra. Qed.
 
+(* a second make_private on one engine (per-layer clipping on a distributed module): after any number of optimizers built in turn over
+   the same parameters only the last one's tensor hook fires, so a backward pass accumulates each clipped sample once *)
+Theorem C18_perlayer_hooks_replaced {H : Type} (hs : list H) (h : H) (c : R) :
+  fold_left dpl_register (hs ++ [h]) [] = [h] /\ dpl_accumulated (fold_left dpl_register (hs ++ [h]) []) c = c.
+Proof. exact (conj (dpl_one_hook_after_any_history hs h) (dpl_accumulates_once hs h c)). Qed.
+Theorem C18_perlayer_hooks_append_refuted : exists c : R, dpl_accumulated (fold_left (fun old h => old ++ [h]) [1%nat; 2%nat] []) c <> c.
+Proof. exact dpl_append_refuted. Qed.
+
 Print Assumptions C18_flat_equals_union.
 Print Assumptions C18_ghost_equals_union.
 Print Assumptions C18_noise_once.
@@ -48,3 +56,5 @@ Print Assumptions C18_simple_perlayer_resolution.
 Print Assumptions C18_broadcast_from_rank0.
 Print Assumptions C18_perlayer_hooks_closed_form.
 Print Assumptions C18_perlayer_hooks_two_workers_partial.
+Print Assumptions C18_perlayer_hooks_replaced.
+Print Assumptions C18_perlayer_hooks_append_refuted.
